@@ -427,7 +427,18 @@ def dec_charclass(p, res):
             got = bool(ev.call(f, [c]))
             if got != bool(want(c)):
                 bad.append(c)
-        if bad and all(c != '' and ord(c) >= 128 and not want(c) for c in bad):
+        def unconvertible(c):
+            try:
+                float(c)
+                return False
+            except ValueError:
+                return True
+        if bad and fq in ('scanner_utils.is_number', 'scanner_utils.is_alpha_numeric') and any(not want(c) and not c.isalpha() and unconvertible(c) for c in bad if c != ''):
+            # what the digit class accepts is handed to int() / float(): a character they cannot convert raises ValueError
+            wrong = [c for c in bad if c != '' and not want(c) and unconvertible(c)]
+            res.bad(F('DEC-CHARCLASS', f, f.node, '%s(%r) -> True' % (f.name, wrong[0]),
+                      'the digit class accepts %d character(s) that int() / float() cannot convert, e.g. %r: scanned numbers are converted without a guard (ValueError instead of the documented error)' % (len(wrong), wrong[:6])))
+        elif bad and all(c != '' and ord(c) >= 128 and not want(c) for c in bad):
             # only characters outside ASCII, and only *added* to the class: input that was rejected (outside the documented, ASCII
             # grammar) is accepted now -- an extension, not a change of what the class decides inside the grammar
             res.undecided('%s: %d non-ASCII character(s) added to the class, e.g. %r' % (f.short, len(bad), bad[:6]),
